@@ -511,12 +511,15 @@ def _rb(kind, content, attrs=None):
 def fam_ruby():
   patterns = ["bt", "bdtd", "BC", "BCC", "BCd", "none", "nested-none", "bt-styled"]
   tim = [(None, None), ("1s", None), (None, "3s"), ("1s", "3s")]
-  prod = Product([patterns, ["text", "span"], tim, tim])
+  prod = Product([patterns, ["text", "span", "br"], tim, tim])
 
   def decode(i):
     pat, content, (cb, ce), (tb, te) = prod.decode(i)
 
     def c(s):
+      if content == "br":
+        # a line break inside a ruby base / text / delimiter, followed by more mixed content
+        return [s, el("br"), s + "2", el("span", None, ["in"]), "tail"]
       return [s] if content == "text" else [el("span", None, [s])]
     ta = {"begin": tb, "end": te}
     if pat == "bt":
